@@ -9,8 +9,10 @@ import (
 	"encoding/json"
 	"fmt"
 	"os"
+	"os/exec"
 	"runtime"
 	"strconv"
+	"strings"
 	"time"
 
 	"verifmc/engine"
@@ -108,7 +110,27 @@ func main() {
 		if s, ok := v.Tags["search"]; ok {
 			kind = s
 		}
-		for i := 0; i < 2; i++ {
+		for i := 0; i < 2 && chk.FreshProcessReplay; i++ {
+			tmp, err := os.CreateTemp("", "verif-replay-*.json")
+			if err != nil {
+				fmt.Printf("HARNESS-ERROR property=%s %v\n", id, err)
+				os.Exit(2)
+			}
+			tmp.Close()
+			rf := engine.ReplayFile{Property: id, Kind: kind, Clause: v.Clause, Msg: v.Msg, Path: v.Path, Tags: v.Tags}
+			if err := engine.WriteJSON(tmp.Name(), rf); err != nil {
+				fmt.Printf("HARNESS-ERROR property=%s %v\n", id, err)
+				os.Exit(2)
+			}
+			out, err := exec.Command(os.Args[0], id, "--replay", tmp.Name()).CombinedOutput()
+			os.Remove(tmp.Name())
+			ee, isExit := err.(*exec.ExitError)
+			if !isExit || ee.ExitCode() != 1 || !strings.Contains(string(out), "replay: ["+v.Clause+"]") {
+				fmt.Printf("HARNESS-ERROR property=%s violation %q did not reproduce in fresh process #%d (err=%v)\n%s\n", id, v.Clause, i+1, err, out)
+				os.Exit(2)
+			}
+		}
+		for i := 0; i < 2 && !chk.FreshProcessReplay; i++ {
 			_, rv, err := chk.Replay(kind, v.Path)
 			if err != nil || rv == nil || rv.Clause != v.Clause {
 				fmt.Printf("HARNESS-ERROR property=%s violation %q did not reproduce on replay #%d (err=%v got=%v)\n", id, v.Clause, i+1, err, rv)
@@ -135,7 +157,11 @@ func replay(chk *props.Check, file string) int {
 		return 2
 	}
 	var first *engine.Violation
-	for i := 0; i < 2; i++ {
+	runs := 2
+	if chk.FreshProcessReplay {
+		runs = 1 // determinism is demanded across processes (run the command twice), not inside one
+	}
+	for i := 0; i < runs; i++ {
 		outcomes, v, err := chk.Replay(rf.Kind, rf.Path)
 		if err != nil {
 			fmt.Println("replay error:", err)
